@@ -25,7 +25,7 @@ let rec print_reply (r : reply) : string =
   | RNil -> "$nil"
   | RArr l -> "*[" ^ String.concat " " (List.map print_reply l) ^ "]"
   | RNilArr -> "*nil"
-  | RPlain s -> "~" ^ hx s
+  | RPlain s -> if string_of_bytes s = "BLOCKED" then "!BLOCKED" else "~" ^ hx s
 
 (* split the inside of "*[ ... ]" on spaces at depth 0 *)
 let split_top (s : string) : string list =
@@ -125,6 +125,7 @@ let run_mem (infile : string) (outfile : string) =
   let steps = ref 0 and cases = ref 0 and mism = ref 0 in
   let pending_dump = ref [] in
   let pending_bg = ref [] in            (* G lines (commands of other connections) before an S line *)
+  let watchdog_ms = ref "100000050" in  (* WD line: harness cancels a step still blocked after this long *)
   let expected_end = ref None in        (* model's return instant of a blocking / BG-accompanied step *)
   let rec nat_of_int i = if i <= 0 then O else S (nat_of_int (i - 1)) in
   let fail kind exp obs =
@@ -152,7 +153,8 @@ let run_mem (infile : string) (outfile : string) =
              let evs = List.map (fun (c, ms, a, o) ->
                  { bg_conn = z_of_string c; bg_ms = z_of_string ms; bg_args = a; bg_hint = parse_reply o }) bgs in
              let (((r, outs), s'), tend) =
-               srv_exec_bg !srv (z_of_string conn) (z_of_string now) (z_of_string nowms) args hint evs in
+               srv_exec_bg !srv (z_of_string conn) (z_of_string now) (z_of_string nowms) args hint evs
+                 (z_of_string !watchdog_ms) in
              srv := s';
              expected_end := Some (string_of_z tend);
              let exp = canon_for_cmd name (print_reply r) in
@@ -175,6 +177,8 @@ let run_mem (infile : string) (outfile : string) =
         (match left with
          | _ :: _ :: nowms :: conn :: args -> pending_bg := (conn, nowms, List.map unhx args, obs) :: !pending_bg
          | _ -> failwith "bad G line")
+      end else if starts_with l "WD " then begin
+        (match split_ws l with [_; ms] -> watchdog_ms := ms | _ -> ())
       end else if starts_with l "T " then begin
         (match !expected_end, split_ws l with
          | Some e, [_; o] -> if e <> o then fail "endtime" e o
